@@ -35,7 +35,16 @@ var (
 	mu      sync.Mutex
 	virtual bool
 	now     time.Time
+	tick    time.Duration // auto-tick: every Now() under the virtual clock advances it by this much (0 = off)
 )
+
+// SetAutoTick makes every Now() call under the virtual clock advance the clock by d afterwards (0 switches
+// it off, the default).  With a tick no two calls observe the same instant, which removes timestamp ties
+// (and with them map-iteration-order dependent tie-breaks) from the code under test.
+func SetAutoTick(d time.Duration) { mu.Lock(); tick = d; mu.Unlock() }
+
+// Peek returns the virtual clock without ticking it; ok=false when the real clock is in use.
+func Peek() (t time.Time, ok bool) { mu.Lock(); defer mu.Unlock(); return now, virtual }
 
 // Set switches to the virtual clock at t.
 func Set(t time.Time) { mu.Lock(); virtual, now = true, t; mu.Unlock() }
@@ -53,7 +62,9 @@ func Now() time.Time {
 	mu.Lock()
 	defer mu.Unlock()
 	if virtual {
-		return now
+		t := now
+		now = now.Add(tick)
+		return t
 	}
 	return time.Now()
 }
@@ -65,7 +76,7 @@ func Date(year int, month Month, day, hour, min, sec, nsec int, loc *Location) t
 	return time.Date(year, month, day, hour, min, sec, nsec, loc)
 }
 func ParseDuration(s string) (time.Duration, error) { return time.ParseDuration(s) }
-func Parse(layout, value string) (time.Time, error)  { return time.Parse(layout, value) }
+func Parse(layout, value string) (time.Time, error) { return time.Parse(layout, value) }
 
 func isVirtual() bool { mu.Lock(); defer mu.Unlock(); return virtual }
 
